@@ -126,6 +126,17 @@ pub fn build_evaluator(node: &AstNode) -> Result<Evaluator> {
   }
 }
 
+/// Returns a number value, or `null` when the result of an arithmetic
+/// operation is not a finite number (overflow or undefined result).
+pub(crate) fn finite_number_or_null(number: FeelNumber, operation: &str) -> Value {
+  // subtracting a number from itself gives zero only for finite numbers (NaN for infinities and NaNs)
+  if number - number == FeelNumber::zero() {
+    Value::Number(number)
+  } else {
+    value_null!("[{}] result is not a finite number", operation)
+  }
+}
+
 ///
 fn build_add(lhs: &AstNode, rhs: &AstNode) -> Result<Evaluator> {
   let lhe = build_evaluator(lhs)?;
@@ -135,7 +146,7 @@ fn build_add(lhs: &AstNode, rhs: &AstNode) -> Result<Evaluator> {
     let rhv = rhe(scope) as Value;
     match lhv {
       Value::Number(lh) => match rhv {
-        Value::Number(rh) => Value::Number(lh + rh),
+        Value::Number(rh) => finite_number_or_null(lh + rh, "addition"),
         value @ Value::Null(_) => value,
         _ => value_null!("addition err 1"),
       },
@@ -435,7 +446,7 @@ fn build_div(lhs: &AstNode, rhs: &AstNode) -> Result<Evaluator> {
           if rh.abs() == FeelNumber::zero() {
             value_null!("[division] division by zero")
           } else {
-            Value::Number(lh / rh)
+            finite_number_or_null(lh / rh, "division")
           }
         }
         _ => value_null!("[division] incompatible types: {} / {}", lhv, rhv),
@@ -1139,7 +1150,7 @@ fn build_mul(lhs: &AstNode, rhs: &AstNode) -> Result<Evaluator> {
     let rhv = rhe(scope) as Value;
     match lhv {
       Value::Number(lh) => match rhv {
-        Value::Number(rh) => Value::Number(lh * rh),
+        Value::Number(rh) => finite_number_or_null(lh * rh, "multiplication"),
         _ => value_null!("[multiplication] incompatible types: {} * {}", lhv, rhv),
       },
       value @ Value::Null(_) => value,
@@ -1555,7 +1566,7 @@ fn build_sub(lhs: &AstNode, rhs: &AstNode) -> Result<Evaluator> {
     match lhv {
       Value::Number(ref lh) => {
         if let Value::Number(ref rh) = rhv {
-          return Value::Number(*lh - *rh);
+          return finite_number_or_null(*lh - *rh, "subtraction");
         }
       }
       Value::DateTime(ref lh) => {
